@@ -90,6 +90,8 @@ func (m *Model) Infer(t *syntax.Transaction) {
 			}
 		}
 		if debit == m.account {
+			// the credit account may just have been replaced
+			credit = t.Bookings[i].Credit.Extract()
 			if account, ok := m.inferAccount(t, &t.Bookings[i], credit); ok {
 				t.Bookings[i].Debit = account
 			}
